@@ -74,8 +74,12 @@ def gen_case(rng, big=False):
     if rest >= 8 and rng.random() < .4:
         lows = [i for i in range(min(rest - 4, 40)) if i not in ids]
         index_only = rng.sample(lows, min(len(lows), rng.choice([1, 1, 2])))
-        rest -= 4 * len(index_only)  # the variable, its alias, and the two parameter slots of the by-reference helper
-    return {"n_auto": max(rest, 0), "explicit": ids, "index_only": index_only, "n_abi": n_abi, "n_dyn": n_dyn, "n_mv": n_mv, "sub": sub, "version": version,
+        rest -= 6 * len(index_only)  # the variable, its alias, and the parameter slots of the by-reference helpers (two levels)
+    gadgets = 0
+    if rest >= 16 and rng.random() < .6:
+        gadgets = rng.choice([2, 4])
+        rest -= 2 * gadgets + 2
+    return {"n_auto": max(rest, 0), "explicit": ids, "index_only": index_only, "gadgets": gadgets, "n_abi": n_abi, "n_dyn": n_dyn, "n_mv": n_mv, "sub": sub, "version": version,
             "ss": rng.choice([None, False, True]), "fp": fp, "order": rng.randrange(10**9), "bytes_every": rng.choice([0, 3, 5])}
 
 
@@ -165,7 +169,15 @@ def build(pt, case):
             def put(ref: pt.ScratchVar, val):
                 return ref.store(val)
             put.__name__ = "put%d" % sid
-            steps.append(pt.Subroutine(pt.TealType.none)(put)(w, I(m)))
+            putter = pt.Subroutine(pt.TealType.none)(put)
+            if sid % 4 == 3:
+                # two levels: the helper hands its own by-reference parameter on to the routine that writes
+                def fwd(val, ref: pt.ScratchVar):
+                    return putter(ref, val + I(0))
+                fwd.__name__ = "fwd%d" % sid
+                steps.append(pt.Subroutine(pt.TealType.none)(fwd)(I(m), w))
+            else:
+                steps.append(putter(w, I(m)))
         else:
             steps += [d.set_index(w), d.store(I(m))]
         index_only.append((w, d, m, sid))
@@ -215,7 +227,7 @@ def build(pt, case):
             subr = pt.Subroutine(pt.TealType.uint64)(body)
             steps.append(absorb(pt.Itob(subr(I(2)))))
         chain((3).to_bytes(8, "big"))
-    exp["n_live"] = len(vars_) + len(dyns) + 2 * len(mvs) + 2 * len(index_only)
+    exp["n_live"] = len(vars_) + len(dyns) + 2 * len(mvs) + 6 * len(index_only)
     # read everything back in another order
     order2 = list(range(len(vars_)))
     rng.shuffle(order2)
@@ -230,6 +242,21 @@ def build(pt, case):
     for mv in mvs:
         steps.append(absorb(pt.Itob(mv.hasValue())))
         chain((0).to_bytes(8, "big"))
+    # automatic variables stored and read back at the start of a short block, and read again in a nested block after k filler
+    # operations (so that the later read sits at every small op index, including the index of the first read): the value read
+    # last is the value stored
+    if case.get("gadgets"):
+        for g in range(case["gadgets"]):
+            t = pt.ScratchVar(pt.TealType.uint64)
+            m = marker(False)
+            nfill = rng.randrange(0, 6)
+            val = [I(m), I(m - 1) + I(1), I(m) + I(0) * I(3)][rng.randrange(3)]
+            filler = [pt.Pop(I(9)) for _ in range(nfill)]
+            t2 = pt.ScratchVar(pt.TealType.uint64)
+            inner = pt.If(t.load() > I(0)).Then(pt.Seq(*filler, t2.store(t.load() + I(0)), absorb(pt.Itob(t2.load()))))
+            steps.append(pt.If(I(1)).Then(pt.Seq(t.store(val), inner)))
+            chain(m.to_bytes(8, "big"))
+            exp["n_live"] += 2
     # explicitly numbered variables that are stored and read exactly once, back to back: the slot optimiser must leave requested
     # ids alone (they are visible to other transactions through gload), so the value must still be in the slot at exit
     if exp["n_live"] <= 240:
